@@ -1,10 +1,13 @@
 package props
 
 import (
+	"bufio"
 	"encoding/json"
 	"fmt"
+	"io"
 	"math/big"
 	"net"
+	"net/http"
 	"os"
 	"os/exec"
 	"path/filepath"
@@ -28,6 +31,9 @@ type c14Cycle struct {
 	InFlight int    `json:"inFlight"` // requests brought in flight before the stop (0..3)
 	Delay    string `json:"delay"`    // none | yield | us | ms | mid-proof | after-completion
 	DelayN   int    `json:"delayN"`   // microseconds / milliseconds for us / ms
+	// SlowHoldMs > 0: one more request is in flight at the stop whose body is only half uploaded; the client
+	// sends the rest this many milliseconds AFTER the stop was requested (a request at "early progress").
+	SlowHoldMs int `json:"slowHoldMs,omitempty"`
 }
 
 type c14Case struct {
@@ -53,6 +59,13 @@ func genC14(t *rapid.T) c14Case {
 			cy.DelayN = rapid.IntRange(1, 500).Draw(t, "us")
 		case "ms":
 			cy.DelayN = rapid.IntRange(1, 50).Draw(t, "ms")
+		}
+		if cy.Delay != "after-completion" && rapid.IntRange(0, 4).Draw(t, "slow") == 0 {
+			holds := []int{300, 2000, 7000, 7000}
+			if Thorough() {
+				holds = append(holds, 12000, 35000)
+			}
+			cy.SlowHoldMs = pick(t, "hold", holds...)
 		}
 		c.Cycles = append(c.Cycles, cy)
 	}
@@ -97,7 +110,49 @@ func bindsNow(addr string) error {
 }
 
 // c14RunCycle runs one start/stop cycle on the fixed address pair.
-func c14RunCycle(ps *prover.ProvingSystem, mode string, a *c14Addrs, cy c14Cycle, reqs []genReq) (string, string) {
+// slowUpload is a raw HTTP/1.1 client that sends the request line, headers and
+// the first half of the body, and the rest on demand.
+type slowUpload struct {
+	conn net.Conn
+	rest []byte
+}
+
+func startSlowUpload(addr string, r genReq) (*slowUpload, error) {
+	body := r.bytes()
+	conn, err := net.DialTimeout("tcp", addr, 5*time.Second)
+	if err != nil {
+		return nil, err
+	}
+	head := fmt.Sprintf("POST /prove HTTP/1.1\r\nHost: %s\r\nContent-Type: application/json\r\nContent-Length: %d\r\nConnection: close\r\n\r\n", addr, len(body))
+	if _, err := conn.Write(append([]byte(head), body[:len(body)/2]...)); err != nil {
+		conn.Close()
+		return nil, err
+	}
+	return &slowUpload{conn: conn, rest: body[len(body)/2:]}, nil
+}
+
+func (s *slowUpload) finish(timeout time.Duration) httpResult {
+	t0 := time.Now()
+	s.conn.SetDeadline(time.Now().Add(timeout))
+	if _, err := s.conn.Write(s.rest); err != nil {
+		return httpResult{Err: "writing the rest of the body: " + err.Error(), Start: t0, End: time.Now()}
+	}
+	resp, err := http.ReadResponse(bufio.NewReader(s.conn), nil)
+	if err != nil {
+		return httpResult{Err: "reading the response: " + err.Error(), Start: t0, End: time.Now()}
+	}
+	defer resp.Body.Close()
+	b, err := io.ReadAll(resp.Body)
+	res := httpResult{Status: resp.StatusCode, Body: b, Start: t0, End: time.Now(), Elapsed: time.Since(t0)}
+	if err != nil {
+		res.Err = "reading the body: " + err.Error()
+	}
+	return res
+}
+
+func (s *slowUpload) close() { s.conn.Close() }
+
+func c14RunCycle(ps *prover.ProvingSystem, mode string, a *c14Addrs, cy c14Cycle, reqs []genReq, slowReq genReq) (string, string) {
 	histLog(map[string]any{"step": "run", "cycle": cy})
 	cfg := server.Config{ProverAddress: a.prover, MetricsAddress: a.metrics, Mode: mode}
 	job := server.Run(&cfg, ps)
@@ -106,9 +161,21 @@ func c14RunCycle(ps *prover.ProvingSystem, mode string, a *c14Addrs, cy c14Cycle
 	defer ts.client.CloseIdleConnections()
 	results := make([]httpResult, cy.InFlight)
 	var wg sync.WaitGroup
-	if cy.InFlight > 0 {
+	var slow *slowUpload
+	expectInFlight := cy.InFlight
+	if cy.SlowHoldMs > 0 {
+		expectInFlight++
+	}
+	if expectInFlight > 0 {
 		if err := ts.waitReady(20 * time.Second); err != nil {
 			return "harness:not-ready", err.Error()
+		}
+		if cy.SlowHoldMs > 0 {
+			var err error
+			if slow, err = startSlowUpload(a.prover, slowReq); err != nil {
+				return "harness:slow-upload", err.Error()
+			}
+			defer slow.close()
 		}
 		for i := 0; i < cy.InFlight; i++ {
 			wg.Add(1)
@@ -122,11 +189,16 @@ func c14RunCycle(ps *prover.ProvingSystem, mode string, a *c14Addrs, cy c14Cycle
 			deadline := time.Now().Add(20 * time.Second)
 			for {
 				sc := ts.scrape(5 * time.Second)
-				if sc.HasGauge && int(sc.InFlight) >= cy.InFlight {
+				if sc.HasGauge && int(sc.InFlight) >= expectInFlight {
 					break
 				}
 				if time.Now().After(deadline) {
 					wg.Wait()
+					if slow != nil {
+						slow.finish(30 * time.Second)
+					}
+					job.RequestStop()
+					job.AwaitStop()
 					return "", "" // could not confirm (requests finished too early): cycle does not count
 				}
 				time.Sleep(time.Millisecond)
@@ -147,11 +219,23 @@ func c14RunCycle(ps *prover.ProvingSystem, mode string, a *c14Addrs, cy c14Cycle
 	}
 	histLog(map[string]any{"step": "request-stop"})
 	stopped := make(chan struct{})
+	stopAt := time.Now()
 	go func() {
 		job.RequestStop()
 		job.AwaitStop()
 		close(stopped)
 	}()
+	var slowRes httpResult
+	if slow != nil {
+		// the accepted request completes its upload only after the hold; it must still be served in full
+		time.Sleep(time.Duration(cy.SlowHoldMs)*time.Millisecond - time.Since(stopAt))
+		select {
+		case <-stopped:
+			return "shutdown:await-returned-with-request-in-flight", fmt.Sprintf("AwaitStop returned %v after the stop although an accepted request (body half uploaded) was still in flight", time.Since(stopAt).Round(time.Millisecond))
+		default:
+		}
+		slowRes = slow.finish(120 * time.Second)
+	}
 	select {
 	case <-stopped:
 	case <-time.After(90 * time.Second):
@@ -170,6 +254,14 @@ func c14RunCycle(ps *prover.ProvingSystem, mode string, a *c14Addrs, cy c14Cycle
 		}
 	}
 	wg.Wait()
+	if slow != nil {
+		if slowRes.Err != "" {
+			return "shutdown:in-flight-request-dropped", fmt.Sprintf("a request accepted before the stop (body completed %d ms after it) got no complete response: %s", cy.SlowHoldMs, slowRes.Err)
+		}
+		if slowRes.Status != 200 || proofVerifies(ps, slowRes.Body, slowReq.Hash) != nil {
+			return "shutdown:in-flight-request-failed", fmt.Sprintf("slow-upload request answered %d: %s", slowRes.Status, tail(slowRes.Body, 200))
+		}
+	}
 	for i, res := range results {
 		if res.Err != "" {
 			return "shutdown:in-flight-request-dropped", fmt.Sprintf("request %d was in flight when the stop was requested and got no complete response: %s", i, res.Err)
@@ -197,18 +289,23 @@ func runC14(c c14Case) Result {
 	if c14addr == nil {
 		c14addr = &c14Addrs{freeAddr(), freeAddr()}
 	}
-	inflight, early := 0, 0
+	inflight, early, slowCycles := 0, 0, 0
 	for i, cy := range c.Cycles {
 		reqs := make([]genReq, cy.InFlight)
 		for j := range reqs {
 			m := fixedValidParams(c.Mode, i*7+j)
 			reqs[j] = genReq{Method: "POST", Body: m.writeDoc(styleHexLower), Expect: "valid", Hash: m.InputHash}
 		}
-		if sig, msg := c14RunCycle(ps, c.Mode, c14addr, cy, reqs); sig != "" {
+		sm := fixedValidParams(c.Mode, i*7+5)
+		slowReq := genReq{Method: "POST", Body: sm.writeDoc(styleHexLower), Expect: "valid", Hash: sm.InputHash}
+		if sig, msg := c14RunCycle(ps, c.Mode, c14addr, cy, reqs, slowReq); sig != "" {
 			return bad(fmt.Sprintf("cycle/inflight=%d/%s", cy.InFlight, cy.Delay), sig, "cycle %d of %d (in flight %d, delay %s %d): %s", i+1, len(c.Cycles), cy.InFlight, cy.Delay, cy.DelayN, msg)
 		}
-		if cy.InFlight > 0 && cy.Delay != "after-completion" {
+		if (cy.InFlight > 0 || cy.SlowHoldMs > 0) && cy.Delay != "after-completion" {
 			inflight++
+		}
+		if cy.SlowHoldMs > 0 {
+			slowCycles++
 		}
 		if cy.InFlight == 0 && (cy.Delay == "none" || cy.Delay == "yield" || cy.Delay == "us") {
 			early++
@@ -216,7 +313,7 @@ func runC14(c c14Case) Result {
 	}
 	class := fmt.Sprintf("cycles=%d", bucket(len(c.Cycles)))
 	r := ok(class, inflight > 0 || early > 0 || len(c.Cycles) >= 2)
-	return r.tag(fmt.Sprintf("cycles-with-inflight:%d", inflight), fmt.Sprintf("cycles-stopped-early:%d", early))
+	return r.tag(fmt.Sprintf("cycles-with-inflight:%d", inflight), fmt.Sprintf("cycles-stopped-early:%d", early), fmt.Sprintf("cycles-with-slow-upload:%d", slowCycles))
 }
 
 // fixedValidParams returns a deterministic valid batch (depth 3, batch 2)
